@@ -1,16 +1,23 @@
 (* C16 glue: decode the harness's case, run Model/Component.v, render the observables.
    case kind 0: (0 id secret)                       -> (digest)
-   case kind 1: (1 pre secret write_ok reply)       -> (text-read-by-server? err state events probe-routed)
+   case kind 1: (1 pre secret write_ok reply)       -> (text-read-by-server? err state events probe-routed send-accepted)
      pre   = (0) transport refused | (1) dial failed | (2 id)
            | (3 bytes): the stream header as the server wrote it; the model reads it itself
              (Model/StreamHeader.v init_stream): stream id, or connect failure
-     reply = (0) handshake | (1 cond) stream error | (2 k) other packet | (3) read error/closed
+     reply = (0) handshake | (1 cond) stream error | (2 k) other packet | (3) unreadable answer
+           | (5) connection lost before or inside the answer
            | (4 tokens): the tokens NextPacket reads after the handshake; the model classifies
              them itself (Model/Parser.v next_packet, Model/ComponentWire.v reply_of)
      err   = 0 nil | 1 ConnError non-permanent | 2 ConnError permanent
    case kind 2: (2 (id ...) secret)                 -> (digest ...)      one Component value, successive calls
-   case kind 3: (3 ((id reply) ...) secret)         -> ((text-read-by-server? err state probe-routed) ...)
-                                                       one Component value, successive connections *)
+   case kind 3: (3 (session ...) secret)            -> ((text-read-by-server? err state probe-routed send-accepted
+                                                         state-after-the-end) ...)
+                                                       one Component value, successive connections;
+                                                       session = (id reply) | (3 hdr reply) | (1) dial refused
+   case kind 5: (5 (session ...) secret)            -> (((...) ...) 0)
+                                                       the same, the later connections made by the event handler from
+                                                       inside the stream-error callback of the first one; the last 0:
+                                                       the library never closes a connection it reported established *)
 From Coq Require Import List ZArith NArith Bool.
 From XV Require Import Lib.Sx Model.XmlTree Model.Sha1 Model.Hex Model.Component
   Model.StreamHeader Model.ComponentWire.
@@ -21,7 +28,8 @@ Inductive c16_input :=
 | InDigest (id secret : str)
 | InConnect (secret : str) (e : env)
 | InDigestSeq (ids : list str) (secret : str)
-| InReconnect (secret : str) (es : list env).
+| InReconnect (secret : str) (es : list env)
+| InHandlerReconnect (secret : str) (es : list env).
 
 Definition dec_pre (x : sx) : option pre :=
   match x with
@@ -53,6 +61,7 @@ Definition dec_reply (x : sx) : option reply :=
   | SL [SZ 1; SS c] => Some (RStreamError c)
   | SL [SZ 2; SZ k] => Some (ROther (Z.to_N k))
   | SL [SZ 3] => Some RReadError
+  | SL [SZ 5] => Some RCut
   | SL [SZ 4; toks] => do ts <- as_list dec_token toks; Some (reply_from_tokens ts)
   | _ => None
   end.
@@ -61,6 +70,7 @@ Definition dec_session (x : sx) : option env :=
   match x with
   | SL [SS id; r] => do r' <- dec_reply r; Some (Env (PConnected id) true r')
   | SL [SZ 3; SS hdr; r] => do r' <- dec_reply r; Some (Env (pre_of_header hdr) true r')
+  | SL [SZ 1] => Some (Env PConnectFail true RCut)
   | _ => None
   end.
 
@@ -68,6 +78,7 @@ Definition dec_input (x : sx) : option c16_input :=
   match x with
   | SL [SZ 2; ids; SS secret] => do l <- as_list as_s ids; Some (InDigestSeq l secret)
   | SL [SZ 3; ss; SS secret] => do l <- as_list dec_session ss; Some (InReconnect secret l)
+  | SL [SZ 5; ss; SS secret] => do l <- as_list dec_session ss; Some (InHandlerReconnect secret l)
   | SL [SZ 0; SS id; SS secret] => Some (InDigest id secret)
   | SL [SZ 1; p; SS secret; w; r] =>
       do p' <- dec_pre p; do w' <- as_b w; do r' <- dec_reply r;
@@ -92,17 +103,25 @@ Definition server_text (written : list str) : sx :=
   end.
 
 Definition session_sx (r : result) : sx :=
-  SL [server_text (r_written r); err_sx (r_err r); SN (cstate_num (r_state r)); SB (r_recv r)].
+  SL [server_text (r_written r); err_sx (r_err r); SN (cstate_num (r_state r)); SB (r_recv r);
+      SB (r_open r); SN (cstate_num (state_after_end r))].
+
+(* a connection made from inside the first connection's stream-error callback: the first
+   session's end and the second attempt overlap, so no state "after the end" is reported *)
+Definition session5_sx (r : result) : sx :=
+  SL [server_text (r_written r); err_sx (r_err r); SN (cstate_num (r_state r)); SB (r_recv r);
+      SB (r_open r)].
 
 Definition run_typed (i : c16_input) : sx :=
   match i with
   | InDigestSeq ids secret => SL (map SS (handshakes secret ids))
   | InReconnect secret es => SL (map session_sx (component_sessions secret es))
+  | InHandlerReconnect secret es => SL [SL (map session5_sx (component_sessions secret es)); SB false]
   | InDigest id secret => SL [SS (handshake id secret)]
   | InConnect secret e =>
       let r := component_connect secret e in
       SL [server_text (r_written r); err_sx (r_err r); SN (cstate_num (r_state r));
-          SL (map event_sx (r_events r)); SB (r_recv r)]
+          SL (map event_sx (r_events r)); SB (r_recv r); SB (r_open r)]
   end.
 
 Definition run_C16 : sx -> sx := with_input dec_input run_typed.
